@@ -13,35 +13,47 @@ EXTENDS LtlContract, TraceIO
 
 VARIABLES auts,    \* slot -> automaton
           memo,    \* answered step queries <<a, s, w, r>> since the slot was last changed
-          asked,   \* slots queried (step / run) since they were last changed
+          asked,   \* slots queried (step / run) since they were created
+          past,    \* slot -> the versions of the automaton that have been queried (an answer that only an
+                   \* earlier version explains is listed as "stale-after-mutation": the class memoises
+                   \* answers and distances and offers mutators)
           dec,     \* [nbr, lab]
           prod,    \* [co, sa, s0, V]: the product last built
           mode,    \* mode of the current execution (from its Reset line)
           l
-tvars == <<auts, memo, asked, dec, prod, mode, l>>
+tvars == <<auts, memo, asked, past, dec, prod, mode, l>>
 
 Ev == Log[l]
 Is(e) == l <= NLog /\ Ev.e = e /\ l' = l + 1
 Rej(why) == PrintT(ToJson([reject |-> l, ev |-> Ev.e, mode |-> mode, why |-> why]))
-Req(cond, why) == cond \/ Rej(why)
+Req(cond, why) == IF cond THEN TRUE ELSE Rej(why)
 B(i) == i = 1
 A0 == EmptyAut(0, 0)
 NoDec == [nbr |-> <<>>, lab |-> <<>>]
 NoProd == [co |-> 0, sa |-> 1, s0 |-> <<0, 0, 0>>, V |-> {}]
 Touch(a) == /\ memo' = {m \in memo : m[1] # a}
+            /\ UNCHANGED <<asked, past>>
+Fresh(a) == /\ memo' = {m \in memo : m[1] # a}
             /\ asked' = asked \ {a}
+            /\ past' = [past EXCEPT ![a] = {}]
+Queried(a) == past' = [past EXCEPT ![a] = @ \cup {auts[a]}]
+(* every transition / accepting flag some queried version had *)
+Merged(a) == [auts[a] EXCEPT !.tr = @ \cup UNION {o.tr : o \in past[a]}]
+Verdict(ok, stale, why) == IF ok THEN TRUE ELSE IF stale THEN Rej("stale-after-mutation") ELSE Rej(why)
 
-TInit == /\ auts = [a \in {0, 1} |-> A0] /\ memo = {} /\ asked = {} /\ dec = NoDec /\ prod = NoProd
+TInit == /\ auts = [a \in {0, 1} |-> A0] /\ memo = {} /\ asked = {} /\ past = [a \in {0, 1} |-> {}]
+         /\ dec = NoDec /\ prod = NoProd
          /\ mode = "none" /\ l = 1
 
 TReset == /\ Is("Reset")
-          /\ auts' = [a \in {0, 1} |-> A0] /\ memo' = {} /\ asked' = {} /\ dec' = NoDec /\ prod' = NoProd
+          /\ auts' = [a \in {0, 1} |-> A0] /\ memo' = {} /\ asked' = {} /\ past' = [a \in {0, 1} |-> {}]
+          /\ dec' = NoDec /\ prod' = NoProd
           /\ mode' = Ev.mode
 
 (* ------------------------------------------------------------------ building an automaton *)
 TNew == /\ Is("New")
         /\ auts' = [auts EXCEPT ![Ev.a] = EmptyAut(Ev.np, Ev.ns)]
-        /\ Touch(Ev.a) /\ UNCHANGED <<dec, prod, mode>>
+        /\ Fresh(Ev.a) /\ UNCHANGED <<dec, prod, mode>>
 TAddState == /\ Is("AddState")
              /\ Req(Ev.id = auts[Ev.a].ns, "id")
              /\ auts' = [auts EXCEPT ![Ev.a] = CAddState(@, B(Ev.acc))]
@@ -59,57 +71,62 @@ TAddTr == /\ Is("AddTr")
 TLoad == /\ Is("Load")
          /\ auts' = [auts EXCEPT ![Ev.a] = [np |-> Ev.np, ns |-> Ev.ns, start |-> Ev.start, acc |-> SeqToSet(Ev.acc),
                                             tr |-> {<<t[1], t[2], t[3]>> : t \in SeqToSet(Ev.tr)}]]
-         /\ Touch(Ev.a) /\ UNCHANGED <<dec, prod, mode>>
+         /\ Fresh(Ev.a) /\ UNCHANGED <<dec, prod, mode>>
 
 (* ------------------------------------------------------------------ observers *)
 Same == UNCHANGED <<auts, dec, prod, mode>>
 TStep == /\ Is("Step")
          /\ LET A == auts[Ev.a]
                 old == {m \in memo : m[1] = Ev.a /\ m[2] = Ev.s /\ m[3] = Ev.w}
-            IN  /\ Req(Ev.r \in StepSet(A, Ev.s, Ev.w), "admissible")
+            IN  /\ Verdict(Ev.r \in StepSet(A, Ev.s, Ev.w), Ev.r \in StepSet(Merged(Ev.a), Ev.s, Ev.w), "admissible")
                 /\ Req(\A m \in old : m[4] = Ev.r, "same-question-same-answer")
                 /\ memo' = memo \cup {<<Ev.a, Ev.s, Ev.w, Ev.r>>}
-         /\ asked' = asked \cup {Ev.a}
+         /\ asked' = asked \cup {Ev.a} /\ Queried(Ev.a)
          /\ Same
 TRun == /\ Is("Run")
-        /\ Req(RunAdmissible(auts[Ev.a], Ev.ws, B(Ev.r)), "run")
-        /\ asked' = asked \cup {Ev.a}
+        /\ Verdict(RunAdmissible(auts[Ev.a], Ev.ws, B(Ev.r)), RunAdmissible(Merged(Ev.a), Ev.ws, B(Ev.r)), "run")
+        /\ asked' = asked \cup {Ev.a} /\ Queried(Ev.a)
         /\ UNCHANGED memo /\ Same
 TDist == /\ Is("Dist")
-         /\ Req(Ev.d = Dist(auts[Ev.a], Ev.s), "value")
+         /\ Verdict(Ev.d = Dist(auts[Ev.a], Ev.s), \E o \in past[Ev.a] : Ev.s < o.ns /\ Ev.d = Dist(o, Ev.s), "value")
+         /\ Queried(Ev.a)
          /\ UNCHANGED <<memo, asked>> /\ Same
 TIsAcc == /\ Is("IsAcc")
           /\ Req(B(Ev.v) <=> Ev.s \in auts[Ev.a].acc, "value")
-          /\ UNCHANGED <<memo, asked>> /\ Same
-(* numStates / getStartState always; the entries of the transition maps only while nothing was asked
-   (eval() memoises answers in the map itself) *)
+          /\ UNCHANGED <<memo, asked, past>> /\ Same
+(* numStates / getStartState always; the entries of the transition maps exactly only while nothing was
+   asked (eval() memoises answers in the map itself), afterwards every entry must still be a consequence *)
 TObs == /\ Is("Obs")
         /\ LET A == auts[Ev.a]
+               Got == {<<t[1], t[2], t[3]>> : t \in SeqToSet(Ev.tr)}
            IN  /\ Req(Ev.ns = A.ns, "numStates")
                /\ Req(Ev.start = A.start, "startState")
                /\ Req(Ev.np = A.np, "numProps")
-               /\ Req(Ev.a \in asked \/ {<<t[1], t[2], t[3]>> : t \in SeqToSet(Ev.tr)} = A.tr, "transitions")
+               /\ Req(Ev.a \in asked \/ Got = A.tr, "transitions")
                /\ Req(Ev.a \in asked \/ Ev.nt = Cardinality(A.tr), "numTransitions")
-               /\ Req(\A t \in SeqToSet(Ev.tr) : t[3] \in Dests(A, t[1], t[2]), "entries-sound")
-        /\ UNCHANGED <<memo, asked>> /\ Same
+               /\ Verdict(\A t \in Got : t[3] \in Dests(A, t[1], t[2]),
+                          \A t \in Got : t[3] \in Dests(Merged(Ev.a), t[1], t[2]), "entries-sound")
+        /\ UNCHANGED <<memo, asked, past>> /\ Same
 
 (* ------------------------------------------------------------------ Worlds *)
 TWSat == /\ Is("WSat")
          /\ Req(B(Ev.r) <=> Sat(Ev.x, Ev.y), "satisfies")
-         /\ UNCHANGED <<memo, asked>> /\ Same
+         /\ UNCHANGED <<memo, asked, past>> /\ Same
 TWEq == /\ Is("WEq")
         /\ Req(B(Ev.eq) <=> WEqual(Ev.x, Ev.nx, Ev.y, Ev.ny), "equality")
         /\ Req(WEqual(Ev.x, Ev.nx, Ev.y, Ev.ny) => B(Ev.heq), "equal-worlds-hash-equal")
-        /\ UNCHANGED <<memo, asked>> /\ Same
+        /\ UNCHANGED <<memo, asked, past>> /\ Same
 TWGet == /\ Is("WGet")
          /\ Req(Ev.x[Ev.p + 1] = Ev.v, "value")
-         /\ UNCHANGED <<memo, asked>> /\ Same
+         /\ UNCHANGED <<memo, asked, past>> /\ Same
 
 (* ------------------------------------------------------------------ product graph *)
+(* a safety automaton: what is rejected stays rejected *)
+SafetyShaped(A) == \A q \in 0..(A.ns - 1) : q \notin A.acc => Dist(A, q) = -1
 TDecomp == /\ Is("Decomp")
            /\ dec' = [nbr |-> Ev.nbr, lab |-> Ev.lab]
            /\ prod' = NoProd
-           /\ UNCHANGED <<auts, memo, asked, mode>>
+           /\ UNCHANGED <<auts, memo, asked, past, mode>>
 TPBuild == /\ Is("PBuild")
            /\ LET Co == auts[Ev.co]
                   Sa == auts[Ev.sa]
@@ -123,10 +140,10 @@ TPBuild == /\ Is("PBuild")
                          "automaton-distance")
                   /\ prod' = [co |-> Ev.co, sa |-> Ev.sa, s0 |-> Ev.s0, V |-> V]
            /\ asked' = asked \cup {Ev.co, Ev.sa}
-           /\ UNCHANGED <<auts, memo, dec, mode>>
+           /\ UNCHANGED <<auts, memo, past, dec, mode>>
 TPStep == /\ Is("PStep")
           /\ Req(Ev.v = PStep(dec, auts[prod.co], auts[prod.sa], Ev.u, Ev.r2), "getState(parent,region)")
-          /\ UNCHANGED <<memo, asked, auts, dec, prod, mode>>
+          /\ UNCHANGED <<memo, asked, past, auts, dec, prod, mode>>
 TPLead == /\ Is("PLead")
           /\ LET Co == auts[prod.co]
                  Sa == auts[prod.sa]
@@ -135,9 +152,9 @@ TPLead == /\ Is("PLead")
                  ELSE /\ Req(mw >= 0, "lead-although-none-exists")
                       /\ Req(LeadIsPath(dec, Co, Sa, Ev.from, Ev.lead), "lead-is-path")
                       /\ Req(Len(Ev.lead) >= 1 /\ Ev.lead[Len(Ev.lead)] \in PSol(Co, Sa, prod.V), "lead-ends-in-solution")
-                      /\ Req(\A i \in 1..Len(Ev.lead) : Ev.lead[i][3] \in Sa.acc, "lead-leaves-safe-states")
+                      /\ Req(SafetyShaped(Sa) => \A i \in 1..Len(Ev.lead) : Ev.lead[i][3] \in Sa.acc, "lead-leaves-safe-states")
                       /\ Req(LeadWeight(Ev.lead, Ev.wt) = mw, "lead-minimal")
-          /\ UNCHANGED <<memo, asked, auts, dec, prod, mode>>
+          /\ UNCHANGED <<memo, asked, past, auts, dec, prod, mode>>
 
 TNext == \/ TReset \/ TNew \/ TAddState \/ TSetAcc \/ TSetStart \/ TAddTr \/ TLoad
          \/ TStep \/ TRun \/ TDist \/ TIsAcc \/ TObs
